@@ -223,7 +223,11 @@ def lockstep(case, raw):
     order = raw["species_order"]
     perm = [order.index(s) for s in case["model"]["species"]]
     got = rows[:, perm] if rows.size else rows
-    ok = got.shape == exp.shape and np.array_equal(got, exp)
+    if case["model"].get("rules"):
+        # rule right-hand sides are real-valued and sympy may reorder their arithmetic: last-ulp differences are not semantic
+        ok = got.shape == exp.shape and bool(np.allclose(got, exp, rtol=1e-12, atol=1e-300))
+    else:
+        ok = got.shape == exp.shape and np.array_equal(got, exp)
     if ok and case["mode"] in ("volume", "delayvolume"):
         ev = np.array(ref.vols, dtype=float)
         gv = raw["vols"]
@@ -234,7 +238,7 @@ def lockstep(case, raw):
         stats["lockstep_rows"] = 1
         k = None
         if got.shape == exp.shape:
-            bad = np.argwhere(~(got == exp))
+            bad = np.argwhere(~np.isclose(got, exp, rtol=1e-12, atol=1e-300))
             k = int(bad[0][0]) if len(bad) else None
         sig = dict(sig, lambda_zero=bool(ref.lambda_zero_seen))
         detail = {"first_bad_row": k, "shape_got": list(got.shape), "shape_expected": list(exp.shape)}
